@@ -170,11 +170,14 @@ def sink_destination(spec, f1, f2):
     raise AssertionError(spec.out)
 
 
+OK = "ok"
+
+
 def _verdict(spec, built, records, f1, f2, thr):
-    """Compare what the real pipeline did with the reference."""
+    """Compare what the real pipeline did with the reference; -> "ok" or what is wrong."""
     seq = expected_sequence(spec)
     if len(seq) != len(built.steps):
-        return False
+        return "the pipeline has %d steps, the option set asks for %d" % (len(built.steps), len(seq))
     pos = None
     for i, (kind, stem) in enumerate(seq):
         if kind in ("aux", "sink"):
@@ -188,24 +191,27 @@ def _verdict(spec, built, records, f1, f2, thr):
     else:
         stem = seq[pos][1]
         dest = spec.paths(stem) if stem is not None else None
+    what = seq[pos][0]
     # no later filter or output sees the read: exactly the steps 0..pos were called, in order
     if built.calls != list(range(pos + 1)):
-        return False
+        return "expected the read to be consumed by step %d (%s) after steps 0..%d were called in order; steps called: %r" % (pos, what, pos, built.calls)
     # exactly the consuming filter counted it
     for i, step in enumerate(built.steps):
         if hasattr(step, "_filtered") and i != len(seq) - 1:
             if step._filtered != (1 if i == pos else 0):
-                return False
+                return "filter step %d has counted %r reads, the read should have been consumed by step %d (%s)" % (i, step._filtered, pos, what)
     # one destination
     log = built.outfiles.log
     if dest is None:
-        return len(log) == 0
+        return OK if len(log) == 0 else "the read should have been discarded by %s but was written to %r" % (what, [w.paths for w, _ in log])
     if len(log) != 1:
-        return False
+        return "expected exactly one write to %r (%s), got %r" % (dest, what, [w.paths for w, _ in log])
     writer, written = log[0]
     if writer.paths != dest or writer.interleaved != (spec.out == "interleaved"):
-        return False
-    return len(written) == len(records) and all(a is b for a, b in zip(written, records))
+        return "written to %r instead of %r (%s)" % (writer.paths, dest, what)
+    if len(written) != len(records) or any(x is not y for x, y in zip(written, records)):
+        return "the writer did not receive the processed read (pair)"
+    return OK
 
 
 # ---------------------------------------------------------------------------------- conditions
@@ -218,11 +224,11 @@ def _hi(k):
     return len(pc.tables_for(_spec())[k]) - 1
 
 
-def check_single(t: int, c: int, e: int, mt: bool, a: int, m: int, M: int) -> bool:
+def check_single(t: int, c: int, e: int, mt: bool, a: int, m: int, M: int) -> str:
     """
     pre: 0 <= t <= _hi("t") and 0 <= c <= _hi("c") and 0 <= e <= _hi("e") and 0 <= a <= 1
     pre: -1 <= m <= 4 and -1 <= M <= 4
-    post: _
+    post: _ == "ok"
     """
     spec = _spec()
     tables = pc.tables_for(spec)
@@ -232,20 +238,20 @@ def check_single(t: int, c: int, e: int, mt: bool, a: int, m: int, M: int) -> bo
     else:
         m, M = (spec.length_values("m")[0] if spec.m else None), (spec.length_values("M")[0] if spec.M else None)
     names = spec.names(1)
-    name = (names[a] if spec.out == "demux" else names[0]) if names else None
+    name = (pc.Cell(names, a) if spec.out == "demux" else names[0]) if names else None
     f = pc.Features(t, c, e, mt if names else False, name, tables)
     read = pc.LazyRec(f)
     n, bp1, bp2 = built.run([read], pc.MatchSetter1(f))
     if n != 1 or bp1 != f.length or bp2 is not None:
-        return False
+        return "process_reads returned %r" % ((n, bp1, bp2),)
     return _verdict(spec, built, (read,), f, None, (m, m, M, M))
 
 
-def check_paired(t1: int, t2: int, c1: int, c2: int, e1: int, e2: int, mt1: bool, mt2: bool, m1: int, m2: int, M1: int, M2: int) -> bool:
+def check_paired(t1: int, t2: int, c1: int, c2: int, e1: int, e2: int, mt1: bool, mt2: bool, m1: int, m2: int, M1: int, M2: int) -> str:
     """
     pre: 0 <= t1 <= _hi("t") and 0 <= t2 <= _hi("t") and 0 <= c1 <= _hi("c") and 0 <= c2 <= _hi("c") and 0 <= e1 <= _hi("e") and 0 <= e2 <= _hi("e")
     pre: -1 <= m1 <= 4 and -1 <= m2 <= 4 and -1 <= M1 <= 4 and -1 <= M2 <= 4
-    post: _
+    post: _ == "ok"
     """
     spec = _spec()
     tables = pc.tables_for(spec)
@@ -261,12 +267,12 @@ def check_paired(t1: int, t2: int, c1: int, c2: int, e1: int, e2: int, mt1: bool
     r1, r2 = pc.LazyRec(f1), pc.LazyRec(f2)
     n, bp1, bp2 = built.run([(r1, r2)], pc.MatchSetter2(f1, f2))
     if n != 1 or bp1 != f1.length or bp2 != f2.length:
-        return False
+        return "process_reads returned %r" % ((n, bp1, bp2),)
     return _verdict(spec, built, (r1, r2), f1, f2, (m1, m2, M1, M2))
 
 
 # -- each predicate on its own (documented criterion, boundary values inside) ------------------------------------
-N_CUTOFFS = [0.0, 0.25, 1 / 3, 0.5, 2 / 3, 0.75, 1.0, 1.5, 2.0, 3.0]
+N_CUTOFFS = {"fraction": [0.0, 0.25, 1 / 3, 0.5, 2 / 3, 0.75], "count": [1.0, 1.5, 2.0, 3.0]}
 EE_CUTOFFS = [0.0, 0.5, 1.0, 1.5, 2.0, 2.5, 3.0]
 AER_CUTOFFS = [0.25, 1 / 3, 0.5, 0.75, 5 / 6, 0.9]
 
@@ -284,11 +290,11 @@ def check_pred_length(t: int, m: int) -> bool:
 
 def check_pred_n(s: str, x: int) -> bool:
     """
-    pre: len(s) <= 4 and all(ch in "ACNn" for ch in s)
-    pre: 0 <= x <= 9
+    pre: len(s) <= 3 and all(ch in "ANn" for ch in s)
+    pre: 0 <= x < len(N_CUTOFFS[_PARAM.get("cutoffs", "fraction")])
     post: _
     """
-    nmax = N_CUTOFFS[x]
+    nmax = N_CUTOFFS[_PARAM.get("cutoffs", "fraction")][x]
     k = 0
     for ch in s:
         if ch == "N" or ch == "n":
@@ -370,10 +376,11 @@ def _catalogue():
             add(Spec(paired=True, pair_filter=pf, adapters=ad, last="discard_untrimmed"))
         add(Spec(paired=True, adapters=ad, last="untrimmed_output", M="3", tl_out=True))
         add(Spec(paired=True, adapters=ad, last="discard_trimmed"))
-    for pf in (None, "both"):
-        for last in ("discard_trimmed", "discard_untrimmed", "untrimmed_output"):
-            add(Spec(paired=True, pair_filter=pf, adapters="12", m="2:3", ts_out=True, M="3", max_n=1.0, max_ee=1.0, max_aer=0.5, casava=True, last=last),
-                symbolic_lengths=False)
+    for last in ("discard_trimmed", "discard_untrimmed", "untrimmed_output"):
+        add(Spec(paired=True, adapters="12", m="2:3", ts_out=True, M="3", max_n=1.0, max_ee=1.0, max_aer=0.5, casava=True, last=last), symbolic_lengths=False)
+        # with --pair-filter=both far more pairs pass each filter: two halves keep the conditions small
+        add(Spec(paired=True, pair_filter="both", adapters="12", m="2:3", ts_out=True, M="3", max_n=1.0, last=last), symbolic_lengths=False)
+        add(Spec(paired=True, pair_filter="both", adapters="12", max_ee=1.0, max_aer=0.5, casava=True, last=last))
     add(Spec(paired=True, adapters="12", out="demux", m="2"))
     add(Spec(paired=True, adapters="12", out="demux", last="untrimmed_output", casava=True))
     add(Spec(paired=True, adapters="12", out="demux", last="discard_untrimmed", M="3", tl_out=True))
@@ -388,7 +395,8 @@ OPTION_SETS = [s for s, _ in _CAT]
 
 CONDITIONS = [
     {"name": "pred/length", "fn": "check_pred_length", "timeout": 120},
-    {"name": "pred/too_many_n", "fn": "check_pred_n", "timeout": 600},
+    {"name": "pred/too_many_n/fraction", "fn": "check_pred_n", "param": {"cutoffs": "fraction"}, "timeout": 600},
+    {"name": "pred/too_many_n/count", "fn": "check_pred_n", "param": {"cutoffs": "count"}, "timeout": 600},
     {"name": "pred/expected_errors", "fn": "check_pred_ee", "timeout": 300},
     {"name": "pred/casava_trimmed_untrimmed", "fn": "check_pred_flags", "timeout": 120},
 ]
@@ -406,21 +414,27 @@ def describe():
                       "steps.py:SingleEndFilter/PairedEndFilter/SingleEndSink/PairedEndSink/Demultiplexer/PairedDemultiplexer/CombinatorialDemultiplexer/"
                       "RestFileWriter/InfoFileWriter/WildcardFileWriter/PairedSingleEndStep.__call__",
                       "pipeline.py:SingleEndPipeline.process_reads, PairedEndPipeline.process_reads"],
-        "bounds": {"option_sets": len(OPTION_SETS), "read": "text from a fixed table (length 0..3, every N count 0..length, N and n); header from a table of 5 names "
-                   "(none, CASAVA pass, CASAVA fail, ':Y:' in the id only, ':Y:' at the end of the comment)",
-                   "thresholds": "symbolic: -m/-M -1..4 per mate, --max-n real 0..4 (count and fraction), --max-ee real 0..8, --max-aer real in (0,1)",
-                   "expected_errors": "symbolic real 0..8 per mate", "adapter": "symbolic found/not found per mate, symbolic choice of the adapter name (single-end)",
-                   "too_many_n predicate": "symbolic read text of length <= 4 over {A,C,N,n}"},
-        "outside_bounds": ["reads longer than 3 (4 for the N predicate)", "floating-point rounding exactly at a threshold (comparisons are decided in real arithmetic)",
+        "bounds": {"option_sets": len(OPTION_SETS),
+                   "read": "symbolic row numbers into fixed tables: text (length 0..3, every N count 0..length, N and n), header (none, CASAVA pass, CASAVA fail, ':Y:' in the id only, "
+                           "':Y:' at the end of the comment), expected errors (0, 1, 1.5, 2.5); paired-end sets use a selection of rows (pipeline_common.tables_for)",
+                   "thresholds": "-m/-M: symbolic ints -1..4 per mate injected into the real TooShort/TooLong objects (fixed 2 / 3 in the sets marked [fixed -m/-M]); --max-n 0, 0.5, 1, 2; "
+                                 "--max-ee 1; --max-aer 0.5 as parsed by cutadapt (the tables contain values below, at and above each of them); the predicate conditions go through "
+                                 "--max-n 0, 1/4, 1/3, 1/2, 2/3, 3/4, 1, 1.5, 2, 3, --max-ee 0..3 in steps of 0.5, --max-aer 1/4, 1/3, 1/2, 3/4, 5/6, 0.9",
+                   "adapter": "symbolic found/not found per mate, symbolic choice of the adapter name (single-end demultiplexing)",
+                   "too_many_n predicate": "symbolic read text of length <= 3 over {A,N,n}"},
+        "outside_bounds": ["reads longer than 3", "thresholds of --max-n/--max-ee/--max-aer other than the listed values: CrossHair 0.0.110 does not finish with symbolic floats "
+                           "(it explores an IEEE model besides the real one), so floats are concrete and all float arithmetic is the native one",
                            "--pair-filter=first together with a length given for R2 only (C05)", "headers that are not CASAVA 1.8 headers beyond the five in the table",
                            "which demultiplexed file is the right one beyond 'the adapter found in R1 / in both mates' (C15)"],
-        "stubs": ["RecordingOutfiles for files.OutputFiles (signatures compared at import)", "Rec for dnaio.SequenceRecord", "predicates.expected_errors returns the "
-                  "symbolic value attached to the read (contract: non-negative real, 0 for an empty read; proved for the kernel by C14)",
-                  "SetMatches1/2: the only modifier; appends a dummy match to info.matches iff the symbolic flag is set", "OneChunk for InputFiles (one read / one pair)",
+        "stubs": ["RecordingOutfiles for files.OutputFiles (signatures compared at import)", "LazyRec for dnaio.SequenceRecord (e2_common.Rec contract)",
+                  "predicates.expected_errors returns the table value attached to the read (contract: non-negative real, 0 for an empty read; proved for the kernel by C14)",
+                  "MatchSetter1/2: the only modifier; installs a list with one dummy match as info.matches iff the symbolic flag is set", "OneChunk for InputFiles (one read / one pair)",
                   "Spy around each step to log the calls"],
-        "assumptions": ["CrossHair's model of int/real/str/list operations; floats are reals", "only 'Confirmed over all paths' counts as discharged",
-                        "modifiers other than the recording of matches do not matter to the filters (they see the read after modification: C10)"],
-        "rule": "one CrossHair condition per option set (real pipeline built natively from parsed arguments) plus one per predicate family; symbolic: read features and thresholds. "
+        "assumptions": ["CrossHair's model of int/bool/str/list operations", "only 'Confirmed over all paths' counts as discharged",
+                        "modifiers other than the recording of matches do not matter to the filters (they see the read after modification: C10)",
+                        "pair decisions: any = at least one read, both = both reads, first = R1 only; a length given for one mate only looks at that mate; "
+                        "--discard-untrimmed/--untrimmed-output use 'both' when only one mate has adapters (guide, 'Filtering paired-end reads')"],
+        "rule": "one CrossHair condition per option set (real pipeline built natively from parsed arguments) plus one per predicate family; symbolic: read features and -m/-M. "
                 "non-trivial = conditions with more than one explored path whose reachability twin is refuted",
     }
 
